@@ -31,6 +31,10 @@ type feedPlan struct {
 	ErrAt     int       `json:"err_at"`     // stream offset at which read() fails (−1: never)
 	GiveUp    int       `json:"give_up"`    // if >0: offset at which the reader returns (0,nil) forever
 	Reject    []int     `json:"reject"`     // ordinals (mod 64) for which the pusher returns false
+	// EOFWithData: the read that delivers the last bytes reports the end of the stream in the same call
+	// (n > 0, io.EOF) - what the io.Reader contract allows and e.g. bytes.Reader wrappers, network and
+	// decompressing readers do; files and pipes report it in a call of its own
+	EOFWithData bool `json:"eof_with_data,omitempty"`
 }
 
 func recBytes(spec recSpec, ordinal int, delim byte) []byte {
@@ -89,6 +93,7 @@ type simStream struct {
 	closed   bool
 	sawEOF   bool // the stream has told the reader that it is over
 	sawErr   bool // the stream has failed
+	eofWith  bool // report the end together with the last bytes
 }
 
 var errSimRead = errors.New("simulated read error")
@@ -139,6 +144,11 @@ func (s *simStream) Read(p []byte) (int, error) {
 	}
 	copy(p, s.data[s.off:s.off+n])
 	s.off += n
+	if s.eofWith && s.off >= len(s.data) && n > 0 && !(s.errAt >= 0 && s.off >= s.errAt) && !(s.giveUp > 0 && s.off >= s.giveUp) {
+		s.sawEOF = true
+		s.c.count("fault.eof_with_data", 1)
+		return n, io.EOF
+	}
 	return n, nil
 }
 
@@ -227,6 +237,7 @@ func genFeedPlan(r *zsim.Rng, big bool) *feedPlan {
 			p.Reject = append(p.Reject, r.Intn(64))
 		}
 	}
+	p.EOFWithData = r.Chance(1, 4)
 	return p
 }
 
@@ -250,7 +261,7 @@ func runFeed(c *runCtx) {
 			stream = append(stream, delim)
 		}
 	}
-	src := &simStream{data: stream, reads: plan.Reads, errAt: plan.ErrAt, giveUp: plan.GiveUp, c: c}
+	src := &simStream{data: stream, reads: plan.Reads, errAt: plan.ErrAt, giveUp: plan.GiveUp, c: c, eofWith: plan.EOFWithData}
 	if plan.ErrAt > len(stream) {
 		src.errAt = len(stream)
 	}
